@@ -148,17 +148,22 @@ class C08(Prop):
             for q in range(24):
                 kind = order[q % 3] if (i // 3) % 2 == 0 else order[(q // 8) % 3]
                 j = i * 8 + q // 3
+                dress = {}
+                if r.random() < 0.5:
+                    # header words a real reply carries besides its fields: the session id, the device's clock, its name
+                    dress = {"hdr_session": gen.session(r), "hdr_clock": (gen.coincidence(r, 4) if r.random() < 0.3 else r.randbytes(4)),
+                             "hdr_name": gen.name_fitting(r, 32, 1, pool=r.choice(["emoji", "ascii", "hebrew", "cjk"]))}
                 if kind == "state1":
                     d = gen_state1(r, j)
-                    reply = replies.state1(d, filler=r.randbytes(replies.STATE1_LEN) if q % 2 else None)
+                    reply = replies.state1(dict(d, **{k: v for k, v in dress.items() if k != "hdr_name"}), filler=r.randbytes(replies.STATE1_LEN) if q % 2 else None)
                     call = c1.api.get_state
                 elif kind == "shutter":
                     d = gen_shutter(r, j)
-                    reply = replies.shutter(d)
+                    reply = replies.shutter(dict(d, **dress))
                     call = c2.api.get_shutter_state
                 else:
                     d = gen_thermo(r, j)
-                    reply = replies.thermostat(d)
+                    reply = replies.thermostat(dict(d, **dress))
                     call = c2.api.get_breeze_state
                 queue.append(reply)
                 acc.ev()
